@@ -637,6 +637,9 @@ def _stop_as_async(f):
         raise StopAsyncIteration
 
 
+CALLABLE_FLAVOURS = ["def", "partial", "object", "awaitobj", "awaitclass"]
+
+
 def check_values(prop, tier, seed, tools):
     """C01 (iterator tools) and C02 (aggregations)."""
     rep = Report(prop, tier, seed)
@@ -668,6 +671,25 @@ def check_values(prop, tier, seed, tools):
         # arguments must not be mutated (C02): compare source item lists and start/default objects
         if prop == "C02" and why is None:
             why = mutation_check(c)
+        # the same data arriving through a plain one-shot *synchronous* iterator (no __len__, cannot be iterated twice)
+        if why is None and c.plan is None and c.tool.kind in ("agg", "gen") and c.tool.std is not None:
+            rs = G.run_impl_sync_sources(c)
+            why = oracle_values(c, rs, s)
+            if why and documented_deviation(c, rs, s):
+                why = None
+            if why:
+                why = "over one-shot synchronous iterators: %s" % why
+        # a callable argument may be any kind of async callable, not only an `async def` function: a regular function, a
+        # partial, a callable object, a callable handing out an awaitable that is no coroutine (like a Future), a class
+        # whose instances are awaitable -- the counterpart's result stays the reference
+        if why is None and c.plan is None and builtins.any(c.params.get(k_) is not None for k_ in ("f", "key")):
+            fl = CALLABLE_FLAVOURS[len(pairs) % len(CALLABLE_FLAVOURS)]
+            r2 = run_impl(c, flavour=fl)
+            why = oracle_values(c, r2, s)
+            if why and documented_deviation(c, r2, s):
+                why = None
+            if why:
+                why = "with a %r callable: %s" % (fl, why)
         if why:
             fails += 1
             small = shrink_case(c, lambda cc: oracle_values(cc, run_impl(cc), std_run_for(cc, run_impl(cc))) is not None)
@@ -710,6 +732,23 @@ def mutation_check(case):
             return "input list mutated"
     if start_copy is not None and (len(start) != len(start_copy) or builtins.any(x is not y for x, y in builtins.zip(start, start_copy))):
         return "start value mutated: %r" % (start,)
+    # a regular generator handed in as the input is left as the counterpart leaves it: whatever the call did not consume
+    # is still there for the caller (an aggregation that returns early must not close somebody else's generator)
+    if case.tool.std is not None and case.plan is None:
+        def gen_of(items):
+            for x in items:
+                yield x
+        g1 = [gen_of(s_) for s_ in case.srcs]
+        g2 = [gen_of(s_) for s_ in case.srcs]
+        try:
+            G.drive(G.run_agg(case.tool.impl(G.Ctx(None), g1)))
+        except Exception:
+            pass
+        G.run_agg_sync(lambda: case.tool.std(G.Ctx(None), g2))
+        rest1 = [list(g) for g in g1]
+        rest2 = [list(g) for g in g2]
+        if [len(x) for x in rest1] != [len(x) for x in rest2] or builtins.any(x is not y for l1, l2 in builtins.zip(rest1, rest2) for x, y in builtins.zip(l1, l2)):
+            return "a generator passed as input is left with %r afterwards, the counterpart leaves %r" % (rest1, rest2)
     return None
 
 
@@ -881,6 +920,24 @@ def check_faults(prop, tier, seed):
                     rep.violation(sig(c, "std-fault-%s" % ("swallowed" if ro[0] == "ok" else "differs")),
                                   {"case": encode_case(c), "why": "the stdlib counterpart fails at its use %d (%s) with the injected exception after items %r; "
                                    "asyncstdlib with the same failing use: outcome %r after items %r" % (ks, kind, ys, ro[:2], yi)})
+        if prop == "C06" and c.name in ("sorted", "nlargest", "nsmallest") and c.tool.std is not None and c.plan is None and c.params.get("key") is not None:
+            # the tools that compute their keys at another moment than the counterpart (as the items arrive): still one key call
+            # per item the counterpart calls it for, and a key that fails at its j-th call fails the call the same way
+            s0 = run_std(c)
+            suk = use_kinds(s0["log"])
+            std_calls = [k for k, kind in enumerate(suk) if kind == "call"]
+            impl_calls = [k for k, kind in enumerate(uk) if kind == "call"]
+            for j, ks in enumerate(std_calls):
+                sp = run_std(with_plan(c, (ks, ("inj", 7, False))))
+                ki = impl_calls[j] if j < len(impl_calls) else 10 ** 6
+                rp = run_impl(with_plan(c, (ki, ("inj", 7, False))))
+                nplans += 1
+                so, ro = sp["outcome"], rp["outcome"]
+                if so[0] == "exn" and isinstance(so[2] if len(so) > 2 else None, (Inj, InjBase)) and not (ro[0] == "exn" and ro[1] == so[1]):
+                    fails += 1
+                    rep.violation(sig(c, "std-key-fault-%s" % ("swallowed" if ro[0] == "ok" else "differs")),
+                                  {"case": encode_case(c), "why": "the key fails at its call number %d: the stdlib counterpart raises that exception, asyncstdlib ends %r" % (j + 1, ro[:2])})
+                    break
     rep.notes["fault_plans"] = nplans
     # groupby is a state machine of its own (Model/GroupBy.v, C16): its part of this property is checked here as well
     import check_c16
@@ -902,6 +959,9 @@ def check_faults(prop, tier, seed):
         # a cancelled call of a cached function leaves the cache as it was (check_c11's directed probe)
         import check_c11
         fails += check_c11.cancelled_call_probe(rep)
+        # a tee one of whose children had its first step abandoned before it ran (a task cancelled before its first step)
+        import check_c09
+        fails += check_c09.abandoned_first_step_probe(rep)
     finish_with_model(rep, prop, pairs, fails, proofs_ok)
     return rep.finish()
 
